@@ -1210,3 +1210,361 @@ VARIANTS += [
  IVd('blob-predicate-method-value-other-name', 'flagged(blob/by-name)', nm=BLOB_NAME_MATCHER.replace('nameMatcher{name: policyName}', 'nameMatcher{name: strings.ToUpper(policyName)}'), makers=BLOB_MATCHER),
  IVd('blob-predicate-method-value-fold', 'flagged(blob/by-name)', nm=BLOB_NAME_MATCHER, makers=BLOB_MATCHER.replace('return t.Name == m.name', 'return strings.EqualFold(t.Name, m.name)')),
 ]
+
+# ---------------------------------------------------------------------------------------------------------------------
+# Third pass, class V: the classification of a statement is HELD IN A VALUE before it is acted on — the two membership
+# scans fused into one pass whose answer (an enumeration constant) is accumulated in a variable and returned at the end,
+# returned through a result variable, handed on from another classifier, kept in flags, or computed inline in the
+# selection loop (no helper at all). The constant tested in the selection loop stands for the facts that held when the
+# assignment executed last gave the variable that constant.
+# ---------------------------------------------------------------------------------------------------------------------
+OCI_FUSED_MAIN = '''	var wildcardPolicy, applicablePolicy *OCITrustPolicy
+	for _, policyStatement := range policyDoc.TrustPolicies {
+		switch policyStatement.matchRegistryScope(artifactPath) {
+		case scopeMatchWildcard:
+			wildcardPolicy = policyStatement.clone()
+		case scopeMatchExact:
+			applicablePolicy = policyStatement.clone()
+		}
+	}
+	selectedPolicy := applicablePolicy
+	if selectedPolicy == nil {
+		selectedPolicy = wildcardPolicy
+	}
+	if selectedPolicy == nil {
+		return nil, ''' + ERR + '''
+	}
+	return selectedPolicy, nil
+}
+
+'''
+ENUM_INT = '''type scopeMatch int
+
+const (
+	scopeMatchNone scopeMatch = iota
+	scopeMatchWildcard
+	scopeMatchExact
+)
+
+'''
+ENUM_STR = '''type scopeMatch string
+
+const (
+	scopeMatchNone     scopeMatch = "none"
+	scopeMatchWildcard scopeMatch = "wildcard"
+	scopeMatchExact    scopeMatch = "exact"
+)
+
+'''
+# the answer accumulated over the loop, the wildcard answered on the spot (the held-out refactoring)
+CLS_FUSED = '''func (t *OCITrustPolicy) matchRegistryScope(artifactPath string) scopeMatch {
+	match := scopeMatchNone
+	for _, scope := range t.RegistryScopes {
+		if scope == trustpolicy.Wildcard {
+			return scopeMatchWildcard
+		}
+		if scope == artifactPath {
+			match = scopeMatchExact
+		}
+	}
+	return match
+}
+'''
+# both answers accumulated, the wildcard kept once seen
+CLS_BOTH = '''func (t *OCITrustPolicy) matchRegistryScope(artifactPath string) scopeMatch {
+	match := scopeMatchNone
+	for _, scope := range t.RegistryScopes {
+		switch {
+		case scope == trustpolicy.Wildcard:
+			match = scopeMatchWildcard
+		case scope == artifactPath && match != scopeMatchWildcard:
+			match = scopeMatchExact
+		}
+	}
+	return match
+}
+'''
+# string-kinded enumeration, named result, bare return, index loop, inverted guards
+CLS_NAMED = '''func (t *OCITrustPolicy) matchRegistryScope(artifactPath string) (match scopeMatch) {
+	match = scopeMatchNone
+	for i := 0; i < len(t.RegistryScopes); i++ {
+		if t.RegistryScopes[i] == trustpolicy.Wildcard {
+			match = scopeMatchWildcard
+			return
+		}
+		if t.RegistryScopes[i] != artifactPath {
+			continue
+		}
+		match = scopeMatchExact
+	}
+	return
+}
+'''
+# the method hands on the answer of a function over the list of scopes
+CLS_DELEGATES = '''func (t *OCITrustPolicy) matchRegistryScope(artifactPath string) scopeMatch {
+	if t == nil {
+		return scopeMatchNone
+	}
+	return classifyScopes(t.RegistryScopes, artifactPath)
+}
+
+func classifyScopes(scopes []string, artifactPath string) scopeMatch {
+	match := scopeMatchNone
+	for _, scope := range scopes {
+		if scope == trustpolicy.Wildcard {
+			return scopeMatchWildcard
+		}
+		if scope == artifactPath {
+			match = scopeMatchExact
+		}
+	}
+	return match
+}
+'''
+# two flags set during the pass, the answer decided after it
+CLS_FLAGS = '''func (t *OCITrustPolicy) matchRegistryScope(artifactPath string) scopeMatch {
+	hasWildcard, hasPath := false, false
+	for _, scope := range t.RegistryScopes {
+		if scope == trustpolicy.Wildcard {
+			hasWildcard = true
+		} else if scope == artifactPath {
+			hasPath = true
+		}
+	}
+	switch {
+	case hasWildcard:
+		return scopeMatchWildcard
+	case hasPath:
+		return scopeMatchExact
+	}
+	return scopeMatchNone
+}
+'''
+# a flag that holds the answer of a predicate on one path and false on the other
+CLS_FLAG_PRED = '''func (t *OCITrustPolicy) matchRegistryScope(artifactPath string) scopeMatch {
+	isWildcard := slices.Contains(t.RegistryScopes, trustpolicy.Wildcard)
+	isExact := false
+	if !isWildcard {
+		isExact = slices.Contains(t.RegistryScopes, artifactPath)
+	}
+	if isExact {
+		return scopeMatchExact
+	}
+	if isWildcard {
+		return scopeMatchWildcard
+	}
+	return scopeMatchNone
+}
+'''
+# no helper at all: the fused pass inline in the selection loop, the answer in a variable of the iteration
+OCI_FUSED_INLINE = OCI_FUSED_MAIN.replace('''		switch policyStatement.matchRegistryScope(artifactPath) {
+''', '''		match := scopeMatchNone
+		for _, scope := range policyStatement.RegistryScopes {
+			if scope == trustpolicy.Wildcard {
+				match = scopeMatchWildcard
+				break
+			}
+			if scope == artifactPath {
+				match = scopeMatchExact
+			}
+		}
+		switch match {
+''')
+assert OCI_FUSED_INLINE != OCI_FUSED_MAIN
+# flags of the iteration instead of an enumeration, inline
+OCI_FLAGS_INLINE = OCI_FUSED_MAIN.replace('''		switch policyStatement.matchRegistryScope(artifactPath) {
+		case scopeMatchWildcard:
+			wildcardPolicy = policyStatement.clone()
+		case scopeMatchExact:
+			applicablePolicy = policyStatement.clone()
+		}
+''', '''		hasWildcard, hasPath := false, false
+		for _, scope := range policyStatement.RegistryScopes {
+			if scope == trustpolicy.Wildcard {
+				hasWildcard = true
+			}
+			if scope == artifactPath {
+				hasPath = true
+			}
+		}
+		if hasWildcard {
+			wildcardPolicy = policyStatement.clone()
+		} else if hasPath {
+			applicablePolicy = policyStatement.clone()
+		}
+''')
+assert OCI_FLAGS_INLINE != OCI_FUSED_MAIN
+def V(name, expect, cls=CLS_FUSED, frm=None, to=None, enum=ENUM_INT, main=OCI_FUSED_MAIN, extra=()):
+    body = main + enum + (cls or '')
+    if frm is not None:
+        assert body.count(frm) == 1, name
+        body = body.replace(frm, to)
+    return dict(name=name, expect=expect, edits=[(O, OCI_BODY, body)] + list(extra))
+VARIANTS += [
+ V('benign-fused-classifier-answer-accumulated', 'silent'),
+ V('fused-classifier-prefix', 'flagged(oci/selection-predicate)', frm='\t\tif scope == artifactPath {\n', to='\t\tif strings.HasPrefix(artifactPath, scope) {\n'),
+ V('fused-classifier-fold', 'flagged(oci/selection-predicate)', frm='\t\tif scope == artifactPath {\n', to='\t\tif strings.EqualFold(scope, artifactPath) {\n'),
+ V('fused-classifier-starts-as-exact', 'flagged(oci/selection-predicate)', frm='\tmatch := scopeMatchNone\n', to='\tmatch := scopeMatchExact\n'),
+ V('fused-classifier-inverted-test', 'flagged(oci/selection-predicate)', frm='\t\tif scope == artifactPath {\n', to='\t\tif scope != artifactPath {\n'),
+ V('fused-classifier-exact-also-for-longer-scope', 'flagged(oci/selection-predicate)',
+   frm='\t\tif scope == artifactPath {\n\t\t\tmatch = scopeMatchExact\n\t\t}\n', to='\t\tif scope == artifactPath {\n\t\t\tmatch = scopeMatchExact\n\t\t} else if len(scope) > len(artifactPath) {\n\t\t\tmatch = scopeMatchExact\n\t\t}\n'),
+ V('fused-classifier-answers-swapped', 'flagged(oci/precedence)',
+   frm='\t\t\treturn scopeMatchWildcard\n\t\t}\n\t\tif scope == artifactPath {\n\t\t\tmatch = scopeMatchExact\n', to='\t\t\treturn scopeMatchExact\n\t\t}\n\t\tif scope == artifactPath {\n\t\t\tmatch = scopeMatchWildcard\n'),
+ V('fused-classifier-rewrites-scopes-while-scanning', 'flagged(oci/selection-predicate)',
+   frm='\tfor _, scope := range t.RegistryScopes {\n\t\tif scope == trustpolicy.Wildcard {\n\t\t\treturn scopeMatchWildcard\n\t\t}\n',
+   to='\tfor i, scope := range t.RegistryScopes {\n\t\tt.RegistryScopes[i] = strings.ToLower(scope)\n\t\tif scope == trustpolicy.Wildcard {\n\t\t\treturn scopeMatchWildcard\n\t\t}\n'),
+ V('fused-classifier-classifies-first-statement', 'flagged(oci/selection-predicate)',
+   frm='\t\tswitch policyStatement.matchRegistryScope(artifactPath) {\n', to='\t\tswitch policyDoc.TrustPolicies[0].matchRegistryScope(artifactPath) {\n'),
+ V('fused-classifier-wildcard-first', 'flagged(oci/precedence)',
+   frm='\tselectedPolicy := applicablePolicy\n\tif selectedPolicy == nil {\n\t\tselectedPolicy = wildcardPolicy\n\t}\n', to='\tselectedPolicy := wildcardPolicy\n\tif selectedPolicy == nil {\n\t\tselectedPolicy = applicablePolicy\n\t}\n'),
+ V('benign-fused-classifier-both-accumulated', 'silent', cls=CLS_BOTH),
+ V('fused-classifier-both-accumulated-exact-by-default', 'flagged(oci/selection-predicate)', cls=CLS_BOTH,
+   frm='\t\tcase scope == artifactPath && match != scopeMatchWildcard:\n', to='\t\tcase scope == artifactPath || match == scopeMatchNone:\n'),
+ V('benign-fused-classifier-string-enum-named-result', 'silent', cls=CLS_NAMED, enum=ENUM_STR),
+ V('fused-classifier-named-result-guard-dropped', 'flagged(oci/selection-predicate)', cls=CLS_NAMED, enum=ENUM_STR,
+   frm='\t\tif t.RegistryScopes[i] != artifactPath {\n\t\t\tcontinue\n\t\t}\n', to='\t\tif len(t.RegistryScopes[i]) != len(artifactPath) {\n\t\t\tcontinue\n\t\t}\n'),
+ V('fused-classifier-named-result-compares-neighbour', 'flagged(oci/selection-predicate)', cls=CLS_NAMED, enum=ENUM_STR,
+   frm='\t\tif t.RegistryScopes[i] != artifactPath {\n', to='\t\tif t.TrustStores[i%len(t.TrustStores)] != artifactPath {\n'),
+ V('benign-fused-classifier-delegates', 'silent', cls=CLS_DELEGATES),
+ V('fused-classifier-delegates-other-list', 'flagged(oci/selection-predicate)', cls=CLS_DELEGATES,
+   frm='\treturn classifyScopes(t.RegistryScopes, artifactPath)\n', to='\treturn classifyScopes(t.TrustStores, artifactPath)\n'),
+ V('fused-classifier-delegates-lowercased-path', 'flagged(oci/)', cls=CLS_DELEGATES,
+   frm='\treturn classifyScopes(t.RegistryScopes, artifactPath)\n', to='\treturn classifyScopes(t.RegistryScopes, strings.ToLower(artifactPath))\n'),
+ V('fused-classifier-delegates-nil-is-exact', 'flagged(oci/selection-predicate)', cls=CLS_DELEGATES,
+   frm='\tif t == nil {\n\t\treturn scopeMatchNone\n', to='\tif t == nil {\n\t\treturn scopeMatchExact\n'),
+ V('benign-fused-classifier-flags', 'silent', cls=CLS_FLAGS),
+ V('fused-classifier-flags-prefix', 'flagged(oci/selection-predicate)', cls=CLS_FLAGS,
+   frm='\t\t} else if scope == artifactPath {\n', to='\t\t} else if strings.HasPrefix(artifactPath, scope) {\n'),
+ V('fused-classifier-flags-path-flag-starts-set', 'flagged(oci/selection-predicate)', cls=CLS_FLAGS,
+   frm='\thasWildcard, hasPath := false, false\n', to='\thasWildcard, hasPath := false, len(t.RegistryScopes) == 1\n'),
+ V('fused-classifier-flags-negated', 'flagged(oci/)', cls=CLS_FLAGS, frm='\tcase hasPath:\n', to='\tcase !hasPath:\n'),
+ V('benign-classifier-flag-holds-predicate-answer', 'silent', cls=CLS_FLAG_PRED),
+ V('classifier-flag-holds-negated-answer', 'flagged(oci/selection-predicate)', cls=CLS_FLAG_PRED,
+   frm='\t\tisExact = slices.Contains(t.RegistryScopes, artifactPath)\n', to='\t\tisExact = !slices.Contains(t.RegistryScopes, artifactPath)\n'),
+ V('classifier-flag-defaults-to-true', 'flagged(oci/selection-predicate)', cls=CLS_FLAG_PRED, frm='\tisExact := false\n', to='\tisExact := true\n'),
+ V('benign-fused-scan-inline', 'silent', cls=None, main=OCI_FUSED_INLINE),
+ V('fused-scan-inline-answer-kept-across-statements', 'flagged(oci/selection-predicate)', cls=None, main=OCI_FUSED_INLINE,
+   frm='\tfor _, policyStatement := range policyDoc.TrustPolicies {\n\t\tmatch := scopeMatchNone\n', to='\tmatch := scopeMatchNone\n\tfor _, policyStatement := range policyDoc.TrustPolicies {\n'),
+ V('fused-scan-inline-prefix', 'flagged(oci/selection-predicate)', cls=None, main=OCI_FUSED_INLINE,
+   frm='\t\t\tif scope == artifactPath {\n', to='\t\t\tif strings.HasPrefix(artifactPath, scope) {\n'),
+ V('fused-scan-inline-scans-first-statement', 'flagged(oci/selection-predicate)', cls=None, main=OCI_FUSED_INLINE,
+   frm='\t\tfor _, scope := range policyStatement.RegistryScopes {\n', to='\t\tfor _, scope := range policyDoc.TrustPolicies[0].RegistryScopes {\n'),
+ V('benign-flags-inline', 'silent', cls=None, enum='', main=OCI_FLAGS_INLINE),
+ V('flags-inline-kept-across-statements', 'flagged(oci/selection-predicate)', cls=None, enum='', main=OCI_FLAGS_INLINE,
+   frm='\tfor _, policyStatement := range policyDoc.TrustPolicies {\n\t\thasWildcard, hasPath := false, false\n', to='\thasWildcard, hasPath := false, false\n\tfor _, policyStatement := range policyDoc.TrustPolicies {\n'),
+ V('flags-inline-fold', 'flagged(oci/selection-predicate)', cls=None, enum='', main=OCI_FLAGS_INLINE,
+   frm='\t\t\tif scope == artifactPath {\n', to='\t\t\tif strings.EqualFold(scope, artifactPath) {\n'),
+]
+
+# --- class V (continued): the classifier answers with a PAIR OF FLAGS (several results), or is a CLOSURE of the method
+CLS_PAIR = '''func (t *OCITrustPolicy) scopeFlags(artifactPath string) (wildcard, exact bool) {
+	for _, scope := range t.RegistryScopes {
+		if scope == trustpolicy.Wildcard {
+			wildcard = true
+		} else if scope == artifactPath {
+			exact = true
+		}
+	}
+	return wildcard, exact
+}
+'''
+CLS_PAIR_PRED = '''func (t *OCITrustPolicy) scopeFlags(artifactPath string) (wildcard, exact bool) {
+	return slices.Contains(t.RegistryScopes, trustpolicy.Wildcard), slices.Contains(t.RegistryScopes, artifactPath)
+}
+'''
+OCI_PAIR_MAIN = OCI_FUSED_MAIN.replace('''		switch policyStatement.matchRegistryScope(artifactPath) {
+		case scopeMatchWildcard:
+			wildcardPolicy = policyStatement.clone()
+		case scopeMatchExact:
+			applicablePolicy = policyStatement.clone()
+		}
+''', '''		isWildcard, isExact := policyStatement.scopeFlags(artifactPath)
+		if isWildcard {
+			wildcardPolicy = policyStatement.clone()
+		} else if isExact {
+			applicablePolicy = policyStatement.clone()
+		}
+''')
+assert OCI_PAIR_MAIN != OCI_FUSED_MAIN
+OCI_CLOSURE_MAIN = OCI_FUSED_MAIN.replace('''	var wildcardPolicy, applicablePolicy *OCITrustPolicy
+	for _, policyStatement := range policyDoc.TrustPolicies {
+		switch policyStatement.matchRegistryScope(artifactPath) {
+''', '''	classify := func(scopes []string) scopeMatch {
+		match := scopeMatchNone
+		for _, scope := range scopes {
+			if scope == trustpolicy.Wildcard {
+				return scopeMatchWildcard
+			}
+			if scope == artifactPath {
+				match = scopeMatchExact
+			}
+		}
+		return match
+	}
+	var wildcardPolicy, applicablePolicy *OCITrustPolicy
+	for _, policyStatement := range policyDoc.TrustPolicies {
+		switch classify(policyStatement.RegistryScopes) {
+''')
+assert OCI_CLOSURE_MAIN != OCI_FUSED_MAIN
+VARIANTS += [
+ V('benign-classifier-pair-of-flags', 'silent', cls=CLS_PAIR, enum='', main=OCI_PAIR_MAIN),
+ V('classifier-pair-of-flags-swapped', 'flagged(oci/precedence)', cls=CLS_PAIR, enum='', main=OCI_PAIR_MAIN, frm='\treturn wildcard, exact\n', to='\treturn exact, wildcard\n'),
+ V('classifier-pair-of-flags-prefix', 'flagged(oci/selection-predicate)', cls=CLS_PAIR, enum='', main=OCI_PAIR_MAIN,
+   frm='\t\t} else if scope == artifactPath {\n', to='\t\t} else if strings.HasPrefix(artifactPath, scope) {\n'),
+ V('classifier-pair-of-flags-exact-by-default', 'flagged(oci/selection-predicate)', cls=CLS_PAIR, enum='', main=OCI_PAIR_MAIN,
+   frm='\tfor _, scope := range t.RegistryScopes {\n', to='\texact = len(t.RegistryScopes) > 1\n\tfor _, scope := range t.RegistryScopes {\n'),
+ V('classifier-pair-of-flags-of-first-statement', 'flagged(oci/selection-predicate)', cls=CLS_PAIR, enum='', main=OCI_PAIR_MAIN,
+   frm='policyStatement.scopeFlags(artifactPath)', to='policyDoc.TrustPolicies[0].scopeFlags(artifactPath)'),
+ V('benign-classifier-pair-of-predicate-answers', 'silent', cls=CLS_PAIR_PRED, enum='', main=OCI_PAIR_MAIN),
+ V('classifier-pair-of-predicate-answers-negated', 'flagged(oci/selection-predicate)', cls=CLS_PAIR_PRED, enum='', main=OCI_PAIR_MAIN,
+   frm=', slices.Contains(t.RegistryScopes, artifactPath)\n', to=', !slices.Contains(t.RegistryScopes, artifactPath)\n'),
+ V('benign-classifier-closure', 'silent', cls=None, main=OCI_CLOSURE_MAIN),
+ V('classifier-closure-path-changed-after-capture', 'flagged(oci/)', cls=None, main=OCI_CLOSURE_MAIN,
+   frm='\tvar wildcardPolicy, applicablePolicy *OCITrustPolicy\n', to='\tartifactPath = strings.ToLower(artifactPath)\n\tvar wildcardPolicy, applicablePolicy *OCITrustPolicy\n'),
+ V('classifier-closure-prefix', 'flagged(oci/selection-predicate)', cls=None, main=OCI_CLOSURE_MAIN,
+   frm='\t\t\tif scope == artifactPath {\n', to='\t\t\tif strings.HasPrefix(artifactPath, scope) {\n'),
+ V('classifier-closure-given-other-list', 'flagged(oci/selection-predicate)', cls=None, main=OCI_CLOSURE_MAIN,
+   frm='\t\tswitch classify(policyStatement.RegistryScopes) {\n', to='\t\tswitch classify(policyStatement.TrustStores) {\n'),
+]
+
+# --- class V (continued): the statement found is KEPT IN A VARIABLE declared before the loop (a copy of the loop
+#     variable, resp. a pointer to the element) together with a `found` flag; the clone is made after the loop
+BLOB_NAME_KEPT = '''	found := false
+	var selected *BlobTrustPolicy
+	for i := range policyDoc.TrustPolicies {
+		if policyDoc.TrustPolicies[i].Name == policyName {
+			selected = &policyDoc.TrustPolicies[i]
+			found = true
+			break
+		}
+	}
+	if !found {
+		return nil, fmt.Errorf("no applicable blob trust policy with name %q", policyName)
+	}
+	return selected.clone(), nil
+'''
+BLOB_GLOBAL_KEPT = '''	var selected BlobTrustPolicy
+	found := false
+	for _, policyStatement := range policyDoc.TrustPolicies {
+		if policyStatement.GlobalPolicy {
+			selected, found = policyStatement, true
+			break
+		}
+	}
+	if found {
+		return selected.clone(), nil
+	}
+	return nil, fmt.Errorf("no global blob trust policy")
+'''
+VARIANTS += [
+ IVb('benign-blob-statement-kept-with-found-flag', 'silent', BLOB_NAME_KEPT, BLOB_GLOBAL_KEPT),
+ IVb('blob-kept-copy-of-earlier-statement', 'flagged(blob/global)', BLOB_NAME_KEPT,
+     BLOB_GLOBAL_KEPT.replace('\tfor _, policyStatement := range policyDoc.TrustPolicies {\n\t\tif policyStatement.GlobalPolicy {\n\t\t\tselected, found = policyStatement, true\n',
+                              '\tfor i, policyStatement := range policyDoc.TrustPolicies {\n\t\tif i == 0 {\n\t\t\tselected = policyStatement\n\t\t}\n\t\tif policyStatement.GlobalPolicy {\n\t\t\tfound = true\n')),
+ IVb('blob-kept-copy-made-before-the-test', 'flagged(blob/global)', BLOB_NAME_KEPT,
+     BLOB_GLOBAL_KEPT.replace('\t\tif policyStatement.GlobalPolicy {\n\t\t\tselected, found = policyStatement, true\n\t\t\tbreak\n\t\t}\n',
+                              '\t\tselected, found = policyStatement, true\n\t\tif policyStatement.GlobalPolicy {\n\t\t\tbreak\n\t\t}\n')),
+ IVb('blob-kept-found-flag-not-required', 'flagged(blob/)', BLOB_NAME_KEPT, BLOB_GLOBAL_KEPT.replace('\tif found {\n', '\tif found || len(policyDoc.TrustPolicies) == 1 {\n')),
+ IVb('blob-kept-pointer-found-flag-starts-set', 'flagged(blob/)', BLOB_NAME_KEPT.replace('\tfound := false\n', '\tfound := len(policyDoc.TrustPolicies) > 0\n').replace('\treturn selected.clone(), nil\n', '\tif selected == nil {\n\t\tselected = &policyDoc.TrustPolicies[0]\n\t}\n\treturn selected.clone(), nil\n'), BLOB_GLOBAL_KEPT),
+ IVb('blob-kept-copy-name-fold', 'flagged(blob/by-name)', BLOB_NAME_KEPT.replace('if policyDoc.TrustPolicies[i].Name == policyName {', 'if strings.EqualFold(policyDoc.TrustPolicies[i].Name, policyName) {'), BLOB_GLOBAL_KEPT),
+]
